@@ -80,7 +80,7 @@ void async_scope_end_scope(struct async_scope* self)
 __CPROVER_requires(self == &S && G.lin_count == 0 && G.evt_set == 0 && G.my_refs == 0 && COUNT(S.opState_) < AS_COUNT_MAX)
 __CPROVER_assigns(S.opState_, G.lin_old, G.lin_new, G.lin_count, G.evt_set)
 __CPROVER_ensures(G.lin_count == 1 && G.lin_new == (G.lin_old & ~(size_t)1)) /* closes, count untouched */
-__CPROVER_ensures((G.evt_set >= 1) == (G.lin_new == 0)) /* join event set iff closed and nothing outstanding */
+__CPROVER_ensures((G.evt_set >= 1) == (OPEN(G.lin_old) && G.lin_new == 0)) /* join event set iff THIS call closed the scope with nothing outstanding: a later close never sets it (it could overtake the last completion's own set) */
 __CPROVER_ensures(G.evt_set <= 1)
 /*@BODY end_scope*/
 
@@ -180,7 +180,7 @@ void lemma_scope_protocol(void) {
   _Bool evt;
   if (kind == 0) { __CPROVER_assume(STEP_ADMIT(o, n)); evt = 0; }
   else if (kind == 1) { __CPROVER_assume(STEP_DONE(o, n)); evt = (n == 0); }
-  else { __CPROVER_assume(STEP_CLOSE(o, n)); evt = (n == 0); }
+  else { __CPROVER_assume(STEP_CLOSE(o, n)); evt = (OPEN(o) && n == 0); }
   VF_CANARY("lemma premises satisfiable");
   /* (i) every guarantee step is allowed by every other party's rely, provided the
    * stepping party only gives up units it owns (count stays >= units owned by others) */
@@ -193,6 +193,7 @@ void lemma_scope_protocol(void) {
   VF_P(evt ==> (!OPEN(n) && COUNT(n) == 0), "lemma: join event set only when closed and nothing outstanding");
   /* ... and the step that first reaches (closed, 0) sets it */
   VF_P((n == 0 && o != 0) ==> evt, "lemma: the step that makes (closed and count 0) true sets the join event");
+  VF_P((o == 0) ==> !evt, "lemma: once (closed, 0) has been reached no later step sets the join event again (exactly one setter: the join cannot be woken ahead of the real setter)");
   /* (iii) state 0 is absorbing for legal steps of parties that own what they release */
   VF_P((o == 0) ==> (n == 0 || kind == 1), "lemma: (closed,0) is absorbing (done needs an owned unit, which count 0 excludes)");
   VF_P((o == 0 && kind == 1) ==> 0, "lemma: no completion step is enabled at count 0");
